@@ -97,8 +97,9 @@ PREFIX (INCOMPLETE) MODE — section "prefix mode" at the end of this file; mode
                                  and its leaves tile the whole input (the partial leaf is the rest of the input);
                                  `C04_prefix_chart_sound` the same at chart level for every rule table / scanner / policy.
                                  The stronger "only the rightmost path is cut short" is FALSE of the code (witness in
-                                 the section, fix proposal /var/tmp/fixes/C04-prefix-sibling-after-unfinished); not carried
+                                 the section, observation findings/OBS-C04-prefix-sibling-after-unfinished); not carried
                                  over: the collapse to the IR-level derivation relation `Matches` / `Valid`.
+* `C04_prefix_rightmost_path_only_is_false_witness`  the machine-checked witness of that (model run on `G6` / "x", `decide +kernel`).
 Differential only for prefix mode: that the model is the code (per run: the same states in every column, incomplete and
 force-completed ones included, the same yielded trees), the partial-match regex oracle (`regex` module), the one
 documented deviation of the model (an ordinary state admitted to the last column after an incomplete state with the same
@@ -502,7 +503,8 @@ symbol — a valid derivation tree (`Valid`, helper symbols collapsed) of which 
 whose leaves spell the whole input, the last leaf possibly a proper prefix of a terminal.  THIS IS FALSE OF THE CODE as
 stated: `<start> ::= <b> <c> | "x" <c> "z" ; <b> ::= "x" "y" ; <c> ::= "" "q"` on "x" yields `<start>(<b>("x"), <c>(""))` —
 `<b>` is cut short and yet followed by `<c>` (a state advanced over the unfinished `<b>` by a forced completion is
-advanced again by a state that starts in the last column): see the report.  What holds, and is proved for the model:
+advanced again by a state that starts in the last column): `findings/OBS-C04-prefix-sibling-after-unfinished`,
+`C04_prefix_rightmost_path_only_is_false_witness` below.  What holds, and is proved for the model:
 every inner node's children are a prefix of an expansion of one of its rules (`PreL`, over the compiled table: the
 collapse to the IR-level `Matches` is not carried over), the root is the start symbol, and the leaves tile the whole
 input. -/
@@ -535,5 +537,33 @@ example : G5.typed pinAB.inp.isBytes = true ∧ OracleOk pinAB.inp (fun _ _ => f
         | some (.ok ts) => ts.length
         | _ => 0) = 2 :=
   ⟨(by decide +kernel), (by intro id w l h; cases h), (by intro h; cases h), (by decide +kernel)⟩
+
+/-- `<start> ::= <b> <c> | "x" <c> "z" ; <b> ::= "x" "y" ; <c> ::= "" "q"` -/
+def G6 : Grammar := { rules := [
+  ("<start>", .alt "a1" [.cat "c1" [.nt "<b>" none none, .nt "<c>" none none],
+                         .cat "c2" [.term (.lit (.text [120])), .nt "<c>" none none, .term (.lit (.text [122]))]]),
+  ("<b>", .cat "c3" [.term (.lit (.text [120])), .term (.lit (.text [121]))]),
+  ("<c>", .cat "c4" [.term (.lit (.text [])), .term (.lit (.text [113]))])] }
+/-- the input "x" -/
+def pinX : PInput := { inp := { isBytes := false, cells := [120], rlen := fun _ _ => none }, rinc := fun _ _ => false }
+/-- `<start>(<b>("x"), <c>(""))` -/
+def spuriousTree : Tree :=
+  Tree.node "<start>" [Tree.node "<b>" [Tree.leaf (.text [120])], Tree.node "<c>" [Tree.leaf (.text [])]]
+
+/-- **the stronger form of prefix soundness — only the rightmost path of a partial tree is cut short — is FALSE of the
+    code** (model run, `decide +kernel`; the same four trees come out of the real parser: the check compares them, and
+    `findings/OBS-C04-prefix-sibling-after-unfinished/repro.py` replays it).  On "x" the prefix parse of `G6` yields,
+    among its four trees, `<start>(<b>("x"), <c>(""))`: the only rule of `<b>` is `"x" "y"`, so `<b>("x")` is cut short,
+    and yet it is followed by the sibling `<c>` — no derivation of the grammar has this tree as a prefix (`<c>` can only
+    start after "xy").  It satisfies `C04_prefix_sound_partial` (every node's children are a prefix of an expansion of
+    its rule; the leaves "x", "" tile the input).  Cause: the state `<start-alt> ::= <b> • <c>` that the forced completion
+    of the unfinished `<b>` adds to the last column is advanced again by the (force-completed) `<c>` that starts there. -/
+theorem C04_prefix_rightmost_path_only_is_false_witness :
+    (match parsePrefix (pcfgV G6 Variant.now pinX) 100 with
+      | some (.ok ts) => decide (ts.length = 4) && ts.any (fun t => Tree.beq t spuriousTree)
+      | _ => false) = true
+    ∧ G6.rule "<b>" = some (.cat "c3" [.term (.lit (.text [120])), .term (.lit (.text [121]))])
+    ∧ G6.typed pinX.inp.isBytes = true := by
+  decide +kernel
 
 end FV.Earley
